@@ -143,6 +143,9 @@ def main():
     extra = []
     six = [dict(zip(simpfam.SIX, bits)) for bits in __import__("itertools").product((False, True), repeat=6)]
     osets = [{k: (v if k != "eliminable_variable_expression" else "^zz$") for k, v in o.items() if v} for o in six]
+    for o in osets:
+        if "eliminable_variable_expression" in o:
+            o["expand_mx"] = True  # documented precondition of the option (simplify raises without it)
     for nconst in (1, 2, 3):
         for tail in ("der(x) = -k1 * x;", "der(x) = -k1 * x + u;", "der(x) = -x;"):
             ks = [f"k{i}" for i in range(1, nconst + 1)]
